@@ -169,9 +169,59 @@ def label_compatible(policy, ef, gf):
     return ef["lid"] == gf["lid"]
 
 
+def second_thresholds(case):
+    """the thresholds of the SECOND judgement of the same results, derived from the thresholds the case configures (never from a config object)"""
+    thr = case["pf"].get("thresholds")
+    if thr is None:
+        return None
+    if case["frame"] == "cam":
+        return [{0.5: 0.25, 0.25: 0.5, 0.75: 0.125, 0.125: 0.75, 0.0: 0.5}.get(t, 0.5) for t in thr]
+    return [{0.5: 2.0, 1.0: 0.5, 2.0: 0.0, 3.0: 0.5, 0.0: 1.0}.get(t, 1.0) for t in thr]
+
+
+def configs_vs_case(case, obs, pf_given=None):
+    """The critical filter and the pass/fail thresholds the frame was judged with, as the CONFIG OBJECTS hold them, against what the case
+    handed to their constructors (documented: one entry per target label, kept as given).  Everything else in the oracle works with the
+    objects' values; a config object that remembers another instance's lists (a class-level or module-level cache, a shared default)
+    would otherwise be invisible."""
+    def norm(v):
+        if isinstance(v, (list, tuple)):
+            return [norm(x) for x in v]
+        return float(v) if isinstance(v, (int, float)) and not isinstance(v, bool) else v
+
+    crit, got = case.get("crit"), obs.get("crit")
+    if crit is not None and got is not None:
+        want = {"targets": [["autoware", t] for t in crit["targets"]], "ignore": crit.get("ignore"), "min_pts": crit.get("min_pts"),
+                "conf": crit.get("conf"), "uuids": crit.get("uuids"), "max_x": None, "max_y": None, "max_dist": None, "min_dist": None}
+        if crit.get("max_x") and crit.get("max_y"):
+            want["max_x"], want["max_y"] = crit["max_x"], crit["max_y"]
+        elif crit.get("max_dist") and crit.get("min_dist"):
+            want["max_dist"], want["min_dist"] = crit["max_dist"], crit["min_dist"]
+        for k, w in want.items():
+            if norm(got.get(k)) != norm(w):
+                return (f"the critical object filter was created with {k} = {w} (target labels {crit['targets']}) but its filtering_params hold "
+                        f"{got.get(k)}")
+    pf = case.get("pf")
+    if pf is not None and "pf_thresholds" in obs:
+        given = pf.get("thresholds") if pf_given is None else pf_given
+        sgn = -1.0 if obs.get("score_negated") else 1.0
+        want_thr = None if given is None else [sgn * float(t) for t in given]
+        if norm(obs["pf_thresholds"]) != norm(want_thr):
+            return (f"the pass/fail configuration was created with thresholds {given} for target labels {pf.get('targets')} but holds "
+                    f"{None if obs['pf_thresholds'] is None else [sgn * t for t in obs['pf_thresholds']]}")
+        if pf.get("targets"):
+            want_t = [label_id(_label_enum("autoware", t)) for t in pf["targets"]]
+            if obs.get("pf_targets") != want_t:
+                return f"the pass/fail configuration was created with target labels {pf['targets']} (ids {want_t}) but holds {obs.get('pf_targets')}"
+    return None
+
+
 def accounting_oracle(case, obs):
     """The property, stated on the implementation's outputs.  obs carries facts + outputs."""
     F = Fraction
+    m = configs_vs_case(case, obs, obs.get("pf_given"))
+    if m:
+        return m
     # "in whichever frame the objects are expressed": the ego-relative coordinates the critical filter works with (read through the
     # same getters the filter calls) must be the coordinates the objects were generated at in the ego frame
     from harness.props.C10 import facts_vs_generator
@@ -305,6 +355,8 @@ def gen_frame(rng, stream):
         p = (float(rng.randint(-14, 14)), float(rng.randint(-7, 7)))
         if rng.random() < 0.35:
             p = (float(rng.choice([-10, 10, 8, 6, 3, -3])), float(rng.choice([-5, 5, 0, 4, -4])))
+        if rng.random() < 0.03:
+            p = (0.0, 0.0)                 # at the ego origin: distance exactly 0 (a minimum distance of 0 is a STRICT bound)
         lab = rng.choice(targets + targets + ["false_positive", "truck", "unknown"])
         yaw_i = 0 if plain else rng.randrange(len(YAW_Q))
         if gts and rng.random() < 0.12:
@@ -324,7 +376,7 @@ def gen_frame(rng, stream):
     ests, pairs = [], []
     for e in range(ne):
         lab = rng.choice(targets + ["unknown", "truck"])
-        conf = rng.randint(1, 64) / 64.0
+        conf = rng.choice([0.0, 0.0, 1.0]) if rng.random() < 0.08 else rng.randint(1, 64) / 64.0     # exactly 0: never above a threshold of 0
         yaw_i, size = 0, BOXES[0]
         if free and rng.random() < 0.7:
             g = free.pop()
@@ -353,9 +405,11 @@ def gen_frame(rng, stream):
         crit["max_dist"] = [rng.choice([10.0, 5.0, 12.5, 100.0]) for _ in range(n_c)]
         crit["min_dist"] = [rng.choice([0.0, 0.0, 3.0, 5.0]) for _ in range(n_c)]
     _crit_options(rng, crit, n_c)
-    pf = {"targets": rng.choice([crit["targets"], targets, rng.sample(LABEL_POOL, rng.choice([1, 2, 3])), None, None])}
+    # documented: "If None or empty list is specified, all labels will be evaluated" -- the falsy [] is as valid as None
+    pf = {"targets": rng.choice([crit["targets"], targets, rng.sample(LABEL_POOL, rng.choice([1, 2, 3])), None, None, []])}
     n_pf = 9 if not pf["targets"] else len(pf["targets"])
-    pf["thresholds"] = None if rng.random() < 0.15 else [rng.choice([0.5, 1.0, 1.0, 2.0, 3.0]) for _ in range(n_pf)]
+    # a threshold of exactly 0 is a threshold (no distance is below it: no TP; an FP-labelled ground truth is never "hit"), not "no threshold"
+    pf["thresholds"] = None if rng.random() < 0.15 else [rng.choice([0.5, 1.0, 1.0, 2.0, 3.0, 0.0]) for _ in range(n_pf)]
     return {"frame": frame, "ego": ego, "ests": ests, "gts": gts, "pairs": pairs, "crit": crit, "pf": pf,
             "policy": rng.choice(POLICIES), "stream": stream, "boxes": "plain" if plain else "varied"}
 
@@ -425,7 +479,7 @@ def gen_frame2d(rng, stream):
         crit["max_x"], crit["max_y"] = [rng.choice([10.0, 3.0]) for _ in range(n_c)], [rng.choice([5.0, 4.0]) for _ in range(n_c)]
     _crit_options(rng, crit, n_c)
     crit.pop("min_pts", None)
-    pf = {"targets": rng.choice([crit["targets"], targets, rng.sample(LABEL_POOL, rng.choice([1, 2, 3])), None, None])}
+    pf = {"targets": rng.choice([crit["targets"], targets, rng.sample(LABEL_POOL, rng.choice([1, 2, 3])), None, None, []])}
     n_pf = 9 if not pf["targets"] else len(pf["targets"])
     pf["thresholds"] = None if rng.random() < 0.15 else [rng.choice(THR_IOU) for _ in range(n_pf)]
     return {"frame": "cam", "ego": None, "ests": ests, "gts": gts, "pairs": pairs, "crit": crit, "pf": pf,
@@ -541,7 +595,10 @@ class FrameResultCorr(Corr):
     def run_impl(self, case):
         from perception_eval.evaluation import PerceptionFrameResult
 
-        ests, gts, fgt, results, ec, crit, pf = self._build(case)
+        try:
+            ests, gts, fgt, results, ec, crit, pf = self._build(case)
+        except Exception as e:       # a (mutated) configuration class may reject a well-formed configuration: an observation
+            return {"error": f"building the frame's objects / configurations raised {type(e).__name__}: {e}"}
         obs = {"pairs": [list(p) for p in case["pairs"]],
                "est_facts": [object_facts(o, fgt.transforms) for o in ests], "gt_facts": [object_facts(o, fgt.transforms) for o in gts],
                "gt_keys": eq_keys(gts), "label_ok": [bool(r.is_label_correct) for r in results],
@@ -561,12 +618,10 @@ class FrameResultCorr(Corr):
             obs["map_modes"] = [m.matching_mode.name for m in fr.metrics_score.maps]
         # the SAME result objects judged once more under other pass/fail thresholds (a re-evaluation of stored frame results, as
         # filter_frame_by_distance-style tooling does): the judgement must depend on the thresholds given now, not on the earlier call
-        if pf.matching_threshold_list is not None:
+        if second_thresholds(case) is not None:
             from perception_eval.evaluation.result.perception_pass_fail_result import PassFailResult
 
-            thr2 = [{0.5: 2.0, 1.0: 0.5, 2.0: 1.0, 3.0: 0.5}.get(t, 1.0) for t in pf.matching_threshold_list]
-            if two_d:
-                thr2 = [{0.5: 0.25, 0.25: 0.5, 0.75: 0.125, 0.125: 0.75, 0.0: 0.5}.get(t, 0.5) for t in pf.matching_threshold_list]
+            thr2 = second_thresholds(case)
             pf2 = pf_config(ec, dict(case["pf"], thresholds=thr2))
             p2 = PassFailResult(100, 0, crit, pf2, transforms=fgt.transforms)
             p2.evaluate(fr.object_results, fr.frame_ground_truth.objects)
@@ -575,10 +630,13 @@ class FrameResultCorr(Corr):
                 object_results, frame_ground_truth, pass_fail_result = fr.object_results, fr.frame_ground_truth, p2
             o2 = observe_frame(_Fr, ests, gts, results)
             o2["pf_thresholds"] = [-float(t) for t in pf2.matching_threshold_list] if two_d else pf2.matching_threshold_list
+            o2["pf_given"] = thr2
             obs["second"] = o2
         return obs
 
     def coq_term(self, case, obs):
+        if "error" in obs:
+            return "false"
         crit, pf, rs, gts = encode_frame_terms(case, obs)
         ids = lambda l: llit([str(x) for x in l])  # noqa: E731
         first = (f"check_frame {crit} {pf} {rs} {gts} {pairs_lit(obs['results'])} {ids(obs['gts'])} {pairs_lit(obs['tp'])} "
@@ -592,11 +650,15 @@ class FrameResultCorr(Corr):
         return f"(({first}) && ({second}))%bool"
 
     def coq_debug(self, case, obs):
+        if "error" in obs:
+            return None
         crit, pf, rs, gts = encode_frame_terms(case, obs)
         return (f"match evaluate_frame {crit} {pf} {rs} {gts} with Ok f => Some (map res_pair (f_results f), ids (f_gts f), "
                 f"map res_pair (f_tp f), map res_pair (f_fp f), ids (f_tn f), ids (f_fn f)) | _ => None end")
 
     def oracle(self, case, obs):
+        if "error" in obs:
+            return f"{obs['error']} (critical filter {case['crit']}, pass/fail {case['pf']}: a well-formed configuration)"
         k = keys_vs_spec(case["gts"], case["frame"], obs["gt_keys"])
         if k is not None:
             return None if k == "skip" else k      # ground truths that really share an __eq__ key: outside the quantifier
@@ -618,7 +680,7 @@ class FrameResultCorr(Corr):
 
     def describe(self, case, obs):
         return {"case": {k: case[k] for k in ("frame", "ego", "pairs", "crit", "pf", "policy", "stream")},
-                "observed": {k: obs.get(k) for k in ("results", "gts", "tp", "fp", "tn", "fn", "num_success", "num_fail")}}
+                "observed": {k: obs.get(k) for k in ("results", "gts", "tp", "fp", "tn", "fn", "num_success", "num_fail", "error") if k in obs}}
 
     def distribution(self, cases, obs):
         d = {"frames": {}, "policies": {}, "box_styles": {}, "gts_sharing_a_position": 0, "results_in": 0, "results_surviving": 0, "gts_in": 0, "gts_critical": 0, "TP": 0, "FP": 0, "TN": 0,
@@ -639,6 +701,12 @@ class FrameResultCorr(Corr):
             for k in ("tp", "fp", "tn", "fn"):
                 d[k.upper()] += len(o[k])
             d["no_threshold_frames"] += o["pf_thresholds"] is None
+            d["frames_with_a_pass_fail_threshold_of_exactly_0"] = d.get("frames_with_a_pass_fail_threshold_of_exactly_0", 0) + bool(o["pf_thresholds"] and 0 in o["pf_thresholds"])
+            d["results_judged_against_threshold_0"] = d.get("results_judged_against_threshold_0", 0) + sum(
+                1 for (e, g) in map(tuple, o["results"]) if g is not None and o["pf_targets"] is not None and o["pf_thresholds"]
+                and o["gt_facts"][g]["lid"] in o["pf_targets"] and o["pf_thresholds"][o["pf_targets"].index(o["gt_facts"][g]["lid"])] == 0)
+            d["estimates_of_confidence_exactly_0"] = d.get("estimates_of_confidence_exactly_0", 0) + sum(1 for x in c["ests"] if x.get("conf") == 0)
+            d["objects_at_the_ego_origin"] = d.get("objects_at_the_ego_origin", 0) + sum(1 for x in c["gts"] + c["ests"] if x.get("ego_xy") == [0.0, 0.0])
             surv = {tuple(p) for p in map(tuple, o["results"])}
             fpl = [tuple(p) for p in o["fp"]]
             d["fp_reemitted_gtless"] += sum(1 for e, g in fpl if g is None and any(s[0] == e and s[1] is not None for s in surv))
@@ -676,8 +744,8 @@ class ManagerCorr(FrameResultCorr):
                     mgr["min_pts"] = [rng.choice([0, 1, 3, 5]) for _ in range(n_t)]
                 if rng.random() < 0.15:
                     mgr["ignore"] = rng.choice([["vehicle_state.parked"], ["cycle_state.without_rider", "construction"]])
-                if rng.random() < 0.15:
-                    mgr["conf"] = rng.choice([0.25, 0.5])
+                if rng.random() < 0.2:
+                    mgr["conf"] = rng.choice([0.25, 0.5, 0.0, 0.0])     # 0.0 is a threshold: an estimate of confidence exactly 0 is not above it
                 if rng.random() < 0.2:
                     mgr["uuids"] = rng.sample(UUIDS, rng.choice([2, 3, 4]))
                 c["mgr"] = mgr
@@ -699,8 +767,11 @@ class ManagerCorr(FrameResultCorr):
         ests = [build_object(d, case["frame"]) for d in case["ests"]]
         gts = [build_object(d, case["frame"]) for d in case["gts"]]
         fgt = frame_ground_truth(case, gts)
-        ec = eval_config(case["frame"], case["crit"]["targets"], case["policy"], case.get("task", "detection"), case.get("mgr"))
-        crit, pf = crit_config(ec, case["crit"]), pf_config(ec, case["pf"])
+        try:
+            ec = eval_config(case["frame"], case["crit"]["targets"], case["policy"], case.get("task", "detection"), case.get("mgr"))
+            crit, pf = crit_config(ec, case["crit"]), pf_config(ec, case["pf"])
+        except Exception as e:
+            return {"error": f"building the evaluator / frame configurations raised {type(e).__name__}: {e}"}
         if id(ec) not in _MANAGER_CACHE:
             _MANAGER_CACHE[id(ec)] = PerceptionEvaluationManager(ec)
         manager = _MANAGER_CACHE[id(ec)]
@@ -751,6 +822,8 @@ class ManagerCorr(FrameResultCorr):
         return obs
 
     def coq_term(self, case, obs):
+        if "error" in obs:
+            return "false"
         # the frame's ground truths are the ones that passed the manager-level filter
         crit, pf, rs, _ = encode_frame_terms(case, obs)
         gts = llit([obj_lit(i, obs["gt_facts"][i], obs["gt_keys"][i]) for i in obs["manager_gt_ids"]])
@@ -759,6 +832,8 @@ class ManagerCorr(FrameResultCorr):
                 f"{pairs_lit(obs['fp'])} {ids(obs['tn'])} {ids(obs['fn'])} {obs['num_success']} {obs['num_fail']}")
 
     def coq_debug(self, case, obs):
+        if "error" in obs:
+            return None
         crit, pf, rs, _ = encode_frame_terms(case, obs)
         gts = llit([obj_lit(i, obs["gt_facts"][i], obs["gt_keys"][i]) for i in obs["manager_gt_ids"]])
         return (f"match evaluate_frame {crit} {pf} {rs} {gts} with Ok f => Some (map res_pair (f_results f), ids (f_gts f), "
@@ -772,6 +847,7 @@ class ManagerCorr(FrameResultCorr):
                 continue
             for k in (c.get("mgr") or {}):
                 d["evaluator_filter"][k] = d["evaluator_filter"].get(k, 0) + 1
+            d["evaluator_confidence_threshold_exactly_0"] = d.get("evaluator_confidence_threshold_exactly_0", 0) + ((c.get("mgr") or {}).get("conf") == 0)
             t = c.get("task", "detection")
             d["tasks"][t] = d["tasks"].get(t, 0) + 1
             d["frames_with_an_earlier_frame_in_the_manager"] += bool(c.get("history"))
@@ -779,6 +855,8 @@ class ManagerCorr(FrameResultCorr):
         return d
 
     def oracle(self, case, obs):
+        if "error" in obs:
+            return f"{obs['error']} (evaluator {case.get('mgr')}, critical filter {case['crit']}, pass/fail {case['pf']}: a well-formed configuration)"
         k = keys_vs_spec(case["gts"], case["frame"], obs["gt_keys"])
         if k is not None:
             return None if k == "skip" else k
@@ -828,9 +906,13 @@ class C03(Prop):
             "threshold hits) or varied (3 sizes, 5 yaws, x and y offsets, z: plane distance, BEV and 3D centre distance differ); ground truths that "
             "share a position but differ in label or orientation (distinct __eq__ keys); every fifth frame a detection2d camera frame (ROI objects "
             "without position, pass/fail by IoU 2D with exact 1/2, 1/4, 1/8 hits, position bounds given but inapplicable); the same results judged "
-            "twice under other thresholds; manager: evaluator-level distance ring / min point numbers / ignored attributes / confidence / target "
+            "twice under other thresholds; numeric edges: pass/fail thresholds of exactly 0 (a sixth of the entries; also in the second judgement), "
+            "estimates of confidence exactly 0 / 1 (8 %) against confidence thresholds of exactly 0 (critical list and the evaluator's ONE falsy number), "
+            "objects at the ego origin (distance 0 against a minimum distance of 0); pass/fail target labels None or the empty list (both: every label); the critical filter's filtering_params and the pass/fail thresholds "
+            "held by the config OBJECTS are compared with what the case handed to their constructors (the rest of the oracle reads them through the objects); manager: evaluator-level distance ring / min point numbers / ignored attributes / confidence / target "
             "uuids (expected selection derived from the configuration dict), detection and tracking evaluators, 35 % of the frames with an earlier "
-            "frame (equal objects) already held by the manager; pipeline: evaluator-level ring / point numbers / ignored attributes, co-located "
+            "frame (equal objects) already held by the manager; pipeline: evaluator-level ring / point numbers / ignored attributes, radii / AP thresholds / pass-fail "
+            "thresholds / the evaluator's confidence threshold of exactly 0 (one number or list entry), confidences 0 and 1, 15 % FP validation under every label policy, co-located "
             "ground truths, generator-coordinate check of every object; non-trivial = at least two of TP/FP/TN/FN non-empty and something filtered")
     assumptions = ["matching one-to-one (C01) and every matched ground truth belongs to the frame",
                    "ground-truth __eq__ keys (time, label, position, orientation) pairwise distinct",
